@@ -113,7 +113,10 @@ pub fn run(args: &Args, rep: &mut Report) {
         if case >= args.start {
             rep.begin(case);
             let mut rng = Rng::derive(args.seed, 19, case);
-            let dir = root.join(format!("c19-{}-{}-{}", std::process::id(), args.shard, case));
+            // every fourth tree lives below a directory whose name starts with a dot (~/.local/share/.., /srv/.releases/.., a tempdir):
+            // what is served is a matter of the mounted directory's content, not of where it is on the disk
+            let dir = if case % 4 == 1 { root.join(format!(".hidden-{}", std::process::id())).join(format!("c19-{}-{}", args.shard, case)) } else { root.join(format!("c19-{}-{}-{}", std::process::id(), args.shard, case)) };
+            if case % 4 == 1 { rep.count("trees_below_a_dot_named_ancestor") }
             one(rep, case, &mut rng, &dir, small);
             let _ = std::fs::remove_dir_all(&dir);
             rep.end(case);
